@@ -211,6 +211,7 @@ func checkC18(c *Ctx) {
 	c.checkNoNestedTransaction()
 	c.checkTxHelpersUseTheTx()
 	c.checkCommitErrorReported()
+	c.checkFailureReturnCarriesTheFailure()
 
 	// (4) sibling agreement
 	r.Floor("C18.4-adapters-agree", 1)
